@@ -26,6 +26,7 @@ from pathlib2 import lookup_callee
 sys.setrecursionlimit(20000)
 
 TOP = ("top",)
+WATCH = set((__import__("os").environ.get("ABSINT_WATCH") or "").split(",")) - {""}
 INT_TYPES = {
     "u8": (0, 2**8 - 1), "u16": (0, 2**16 - 1), "u32": (0, 2**32 - 1), "u64": (0, 2**64 - 1), "u128": (0, 2**128 - 1), "usize": (0, 2**64 - 1),
     "i8": (-2**7, 2**7 - 1), "i16": (-2**15, 2**15 - 1), "i32": (-2**31, 2**31 - 1), "i64": (-2**63, 2**63 - 1), "i128": (-2**127, 2**127 - 1), "isize": (-2**63, 2**63 - 1),
@@ -102,6 +103,20 @@ def join(a, b):
     return TOP
 
 
+def meet(a, b):
+    """greatest lower bound on the integer leaves (shape taken from a)"""
+    if a is None or a[0] == "top":
+        return b
+    if b is None or b[0] == "top":
+        return a
+    if a[0] == "i" and b[0] == "i":
+        lo, hi = max(a[1], b[1]), min(a[2], b[2])
+        return ("i", lo, hi) if lo <= hi else a
+    if a[0] in ("arr", "st") and b[0] == a[0] and len(a[1]) == len(b[1]):
+        return (a[0], tuple(meet(x, y) for x, y in zip(a[1], b[1])))
+    return a
+
+
 def widen(old, new, ty_hint=None):
     """old ⊔ new with jumps to thresholds for integers that are still growing"""
     if old == new or new is None:
@@ -122,6 +137,29 @@ def widen(old, new, ty_hint=None):
         if len(old[1]) != len(new[1]):
             return TOP
         return (k, tuple(widen(x, y) for x, y in zip(old[1], new[1])))
+    if k == "it" and old[1] == new[1] and len(old) == len(new):
+        out = ["it", old[1]]
+        for x, y in zip(old[2:], new[2:]):
+            if isinstance(x, tuple) and isinstance(y, tuple) and x and y and isinstance(x[0], str) and isinstance(y[0], str):
+                out.append(widen(x, y))
+            else:
+                out.append(x if x == y else None)
+        return tuple(out)
+    if k == "en":
+        j = join(old, new)
+        if j[0] != "en":
+            return j
+        od = dict(old[1])
+        out = []
+        for var, fs in j[1]:
+            if var in od and len(od[var]) == len(fs):
+                out.append((var, tuple(widen(a, b) for a, b in zip(od[var], fs))))
+            else:
+                out.append((var, fs))
+        return ("en", tuple(out))
+    if k == "vec":
+        j = join(old, new)
+        return ("vec", widen(old[1], j[1]) if old[1] is not None and j[1] is not None else j[1], j[2], _thr_up(j[3]) if j[3] > old[3] else j[3])
     return join(old, new)
 
 
@@ -156,7 +194,21 @@ class State:
         for fa, fb in zip(self.frames, other.frames):
             d = {}
             for k in fa.keys() | fb.keys():
-                d[k] = join(fa.get(k), fb.get(k)) if (k in fa and k in fb) else TOP
+                if isinstance(k, tuple):
+                    d[k] = fa.get(k) if k in fa else fb.get(k)
+                elif isinstance(k, str):
+                    if k == "__focus":
+                        if k in fa and k in fb:
+                            keep = tuple(x for x in fa[k] if x in fb[k])
+                            if keep:
+                                d[k] = keep
+                    elif k in ("__ty", "__fv"):
+                        d[k] = fa.get(k, fb.get(k))
+                    elif k == "__odd":
+                        if k in fa and k in fb and (fa[k] & fb[k]):
+                            d[k] = fa[k] & fb[k]
+                else:
+                    d[k] = join(fa.get(k), fb.get(k)) if (k in fa and k in fb) else TOP
             out.append(d)
         return State(out)
 
@@ -165,7 +217,13 @@ class State:
         for fa, fb in zip(self.frames, other.frames):
             d = {}
             for k in fa.keys() | fb.keys():
-                d[k] = widen(fa.get(k), fb.get(k)) if (k in fa and k in fb) else TOP
+                if isinstance(k, tuple):
+                    d[k] = fa.get(k) if k in fa else fb.get(k)
+                elif isinstance(k, str):
+                    if k in ("__ty", "__fv"):
+                        d[k] = fa.get(k, fb.get(k))
+                else:
+                    d[k] = widen(fa.get(k), fb.get(k)) if (k in fa and k in fb) else TOP
             out.append(d)
         return State(out)
 
@@ -199,10 +257,10 @@ class Interp:
         key = (fv.f["key"], kind, detail)
         o = self.obl.get(key)
         if o is None:
-            self.obl[key] = Obligation(fv.f, kind, detail, fv.loc(line), ok, why)
+            self.obl[key] = Obligation(fv.f, kind, detail, fv.loc(line), ok, why + ((" [root: %s]" % getattr(self, "current_root", "?")) if not ok else ""))
         elif not ok and o.ok:
             o.ok = False
-            o.why = why
+            o.why = why + " [root: %s]" % getattr(self, "current_root", "?")
             o.loc = fv.loc(line)
 
     # ------------------------------------------------------------------ type helpers
@@ -357,7 +415,23 @@ class Interp:
             return iv[1] if iv[1] == iv[2] else (iv[1], iv[2])
         return (0, 10**9)
 
+    def copy_source(self, fv, l):
+        """the local that `l` is a plain copy of (single definition `l = copy x`), else l"""
+        ds = fv.defs.get(l, [])
+        if len(ds) == 1 and ds[0].kind == "assign" and not ds[0].proj and ds[0].rv[0] == "use" and ds[0].rv[1][0] in ("c", "m") and not ds[0].rv[1][1][1]:
+            return ds[0].rv[1][1][0]
+        return l
+
     def read_place(self, st, depth, pl):
+        foc = st.frames[depth].get("__focus")
+        if foc and len(pl[1]) == 1 and isinstance(pl[1][0], list) and pl[1][0][0] == "i":
+            fv_ = st.frames[depth].get("__fv")
+            il = pl[1][0][1]
+            if fv_ is not None:
+                il = self.copy_source(fv_, il)
+            hit = dict(foc).get((pl[0], il))
+            if hit is not None:
+                return hit
         r = self.resolve_place(st, depth, pl)
         if r is None:
             return TOP
@@ -378,7 +452,10 @@ class Interp:
     # ------------------------------------------------------------------ operands / rvalues
     def operand(self, st, depth, fv, o):
         if o[0] == "k":
-            return self.constant(o[1])
+            v = self.constant(o[1])
+            if v[0] == "cref":
+                return self.intern_const(st, v[1])
+            return v
         v = self.read_place(st, depth, o[1])
         if v[0] == "top":
             # materialise by type when the place is a bare local of integer type
@@ -387,6 +464,15 @@ class Interp:
                 return t
         return v
 
+    def intern_const(self, st, val):
+        """constants that are taken by reference live in the root frame under a key derived from their value"""
+        if val[0] == "cref":
+            val = self.intern_const(st, val[1])
+        key = ("k", hash(val))
+        if key not in st.frames[0]:
+            st.frames[0][key] = val
+        return ("ref", 0, key, ())
+
     def constant(self, k):
         if "fn" in k:
             return ("fnp", k["fn"], k.get("fn_key"))
@@ -394,6 +480,19 @@ class Interp:
         if v is None and k.get("def") and k["def"] in self.F.const_by_path:
             v = self.F.const_by_path[k["def"]][0].get("value")
         return self.from_json(v, k.get("ty", ""))
+
+    def wrap_for_type(self, val, have_ty, want_ty, depth=0):
+        """a static reinterpreted through a pointer cast as a single-field newtype around its own type"""
+        if depth > 3 or not have_ty or not want_ty:
+            return val
+        have_ty, want_ty = norm_ty(have_ty), norm_ty(want_ty)
+        if have_ty == want_ty:
+            return val
+        a = self.F.adts.get(re.sub(r"<.*", "", want_ty))
+        if a and a["kind"] == "Struct" and len(a["variants"][0]["fields"]) == 1:
+            inner = self.wrap_for_type(val, have_ty, a["variants"][0]["fields"][0]["ty"], depth + 1)
+            return ("st", (inner,))
+        return val
 
     def from_json(self, v, ty=""):
         if isinstance(v, bool):
@@ -415,7 +514,11 @@ class Interp:
             if "static" in v:
                 c = self.F.const_by_path.get(v["static"])
                 if c and "value" in c[0]:
-                    return ("cref", self.from_json(c[0]["value"]))
+                    inner = self.from_json(c[0]["value"], c[0].get("ty", ""))
+                    want = re.sub(r"^&('\w+ )?(mut )?", "", ty) if ty.startswith("&") else None
+                    if want:
+                        inner = self.wrap_for_type(inner, c[0].get("ty"), want)
+                    return ("cref", inner)
             if "enum" in v and "variant" in v:
                 return TOP
         return TOP
@@ -501,6 +604,10 @@ class Interp:
                     return I(alo // bhi, ahi // blo)
                 if ahi < blo:
                     return I(alo, ahi)
+                if alo == ahi and blo == bhi:
+                    return I(alo % blo)
+                if blo == bhi and (alo // blo) == (ahi // blo):
+                    return I(alo % blo, ahi % blo)
                 return I(0, bhi - 1)
             return I(rng[0], rng[1])
         if base in ("Eq", "Ne", "Lt", "Le", "Gt", "Ge"):
@@ -545,9 +652,17 @@ class Interp:
                 return I(0, r[1])
             if r[0] == 0 and v[2] < 0 and False:
                 pass
-            # signed -> unsigned of possibly negative small values (e.g. xmask as u16)
-            if r[0] == 0 and v[1] < 0:
-                return I(0, r[1])
+            # general wrap-around: the range is shorter than the modulus and does not straddle a wrap point
+            m = 1 << bits
+            if v[2] - v[1] < m:
+                lo_, hi_ = v[1] % m, v[2] % m
+                if lo_ <= hi_:
+                    if r[0] == 0:
+                        return I(lo_, hi_)
+                    if hi_ < m // 2:
+                        return I(lo_, hi_)
+                    if lo_ >= m // 2:
+                        return I(lo_ - m, hi_ - m)
             return I(r[0], r[1])
         if kind.startswith("PointerCoercion") or kind in ("Transmute", "PtrToPtr", "PointerExposeProvenance"):
             return v
@@ -639,6 +754,12 @@ class Interp:
             if v[0] == "en":
                 vs = sorted(var for var, _ in v[1])
                 return I(vs[0], vs[-1])
+            if v[0] == "ord":
+                # core::cmp::Ordering: discriminants -1 (seen as 255 by SwitchInt), 0, 1
+                vals = sorted(255 if x < 0 else x for x in v[1])
+                if len(vals) == 1:
+                    return I(vals[0])
+                return I(0, 255)
             return top_of(dst_ty)
         if k == "len":
             return self.length_of(st, self.read_place(st, depth, rv[1]))
@@ -769,7 +890,7 @@ class Interp:
         return L
 
     # ------------------------------------------------------------------ execution
-    def call_fn(self, f, args, st, depth_caller):
+    def call_fn(self, f, args, st, depth_caller, tyenv=None):
         """execute local function f with abstract args; returns (ret value, state)"""
         fv = view(self.F, f)
         self.call_depth += 1
@@ -790,6 +911,8 @@ class Interp:
                 frame[pi] = tup[1][j] if tup[0] == "st" and j < len(tup[1]) else TOP
             else:
                 frame[pi] = args[i] if i < len(args) else TOP
+        if tyenv:
+            frame["__ty"] = tuple(sorted(tyenv.items()))
         st.frames.append(frame)
         depth = len(st.frames) - 1
         ret = self.run_region(fv, st, depth, 0, None, {})
@@ -797,7 +920,7 @@ class Interp:
         self.call_depth -= 1
         return ret
 
-    def run_region(self, fv, st, depth, start, stop, loopctx):
+    def run_region(self, fv, st, depth, start, stop, loopctx, start_idx=0, skip_first_stop=False):
         """Run from block `start` until `stop` (exclusive) or return.  Returns the joined return value if the region
         contains returns (for the function-level call: stop=None) else None.  The state `st` is updated in place to the
         state at `stop` (joined over all paths reaching it); st.frames[depth]['dead']=True if no path reaches stop."""
@@ -806,14 +929,15 @@ class Interp:
         frame = st.frames[depth]
         visits = {}
         L = self.loops(fv)
+        first_iter = True
         while True:
-            if cur == stop:
+            if cur == stop and not (first_iter and skip_first_stop):
                 return ret
             self.steps += 1
             if self.steps > self.budget:
                 raise Budget("step budget exhausted")
             # loop header handling: count visits; switch to fixpoint mode when too many
-            if cur in L:
+            if cur in L and not (first_iter and start_idx):
                 c = visits.get(cur, 0) + 1
                 visits[cur] = c
                 if c > 1200:
@@ -825,17 +949,41 @@ class Interp:
                     cur = r[1]
                     continue
             b = fv.blocks[cur]
-            for s in b["s"]:
+            stmts = b["s"]
+            si = start_idx if first_iter else 0
+            first_iter = False
+            partitioned = False
+            while si < len(stmts):
+                s = stmts[si]
                 if s[0] == "=":
+                    if s[2][0] == "bin" and s[2][1] == "Shr" and not loopctx.get("in_fix"):
+                        part = self.partition_plan(fv, st, depth, s, loopctx, cur, si)
+                        if part is not None:
+                            r = self.run_partitions(fv, st, depth, cur, si, part, stop, loopctx, L)
+                            ret = join(ret, r[0]) if r[0] is not None else ret
+                            if r[1] is None:
+                                frame = st.frames[depth]
+                                frame["__dead"] = True
+                                return ret
+                            frame = st.frames[depth]
+                            cur = r[1]
+                            partitioned = True
+                            break
                     dst = s[1]
                     dty = fv.locals[dst[0]]["ty"] if not dst[1] else self.place_ty(fv, dst)
                     v = self.rvalue(st, depth, fv, s[2], dty, s[3])
+                    self.side_facts_on_assign(frame, s)
+                    if WATCH and fv.locals[dst[0]].get("name") in WATCH:
+                        print("WATCH", fv.f["path"][-30:], fv.locals[dst[0]].get("name"), dst[1], "=", show_val(v, 2)[:100], "L%s" % s[3])
                     if not dst[1]:
                         frame[dst[0]] = v
                     else:
                         self.write_place(st, depth, dst, v)
-                elif s[0] == "setdisc":
-                    pass
+                si += 1
+            if partitioned:
+                if cur == stop:
+                    return ret
+                continue
             t = b.get("t")
             if not t:
                 frame["__dead"] = True
@@ -948,6 +1096,106 @@ class Interp:
                 frame["__dead"] = True
                 return ret
 
+    def side_facts_on_assign(self, frame, s):
+        dst = s[1]
+        if "__focus" in frame:
+            frame["__focus"] = tuple((k, v_) for k, v_ in frame["__focus"] if dst[0] not in k)
+            if not frame["__focus"]:
+                del frame["__focus"]
+        if "__odd" in frame:
+            odd = frame["__odd"]
+            rv = s[2]
+            src_odd = (not dst[1]) and rv[0] == "use" and rv[1][0] in ("c", "m") and not rv[1][1][1] and rv[1][1][0] in odd
+            if dst[0] in odd and not src_odd:
+                odd = odd - {dst[0]}
+            elif src_odd:
+                odd = odd | {dst[0]}
+            if odd:
+                frame["__odd"] = odd
+            else:
+                del frame["__odd"]
+
+    # ------------------------------------------------------------------ value partitioning (small ranges feeding a lossy shift)
+    def partition_plan(self, fv, st, depth, stmt, loopctx, cur, si):
+        """For `_c = Shr(_b, k)`: if _b derives (through +/- constants, casts, copies of single-definition temporaries) from a
+        read of a memory place / user variable whose current range is small, return (place, chain) to re-evaluate per value."""
+        done = loopctx.setdefault("partitioned", set())
+        if (cur, si) in done or len(done) > 3:
+            return None
+        o = stmt[2][2]
+        chain = []
+        seen = 0
+        while o[0] in ("c", "m") and seen < 8:
+            seen += 1
+            pl = o[1]
+            l = pl[0]
+            if pl[1] and not (len(pl[1]) == 1 and isinstance(pl[1][0], list) and pl[1][0][0] == "f"):
+                break
+            ds = [d for d in fv.defs.get(l, []) if not d.via_mutref]
+            named = fv.locals[l].get("name")
+            if len(ds) != 1 or ds[0].kind != "assign" or ds[0].proj or named:
+                # a user variable or multiply-defined local: partition on it directly if small
+                src = [l, []]
+                v = st.frames[depth].get(l, TOP)
+                if v[0] == "i" and 1 < v[2] - v[1] + 1 <= 300 and not pl[1]:
+                    return (src, list(reversed(chain)))
+                return None
+            rv = ds[0].rv
+            chain.append((l, rv, fv.locals[l]["ty"], ds[0]))
+            if rv[0] == "use" and rv[1][0] in ("c", "m"):
+                src = rv[1][1]
+                if src[1] and any(isinstance(e, list) and e[0] in ("i", "ci") for e in src[1]):
+                    v = self.read_place(st, depth, src)
+                    if v[0] == "i" and 1 < v[2] - v[1] + 1 <= 300:
+                        return (src, list(reversed(chain)))
+                    return None
+                o = rv[1]
+            elif rv[0] == "bin" and rv[1] in ("Add", "Sub", "AddWithOverflow", "SubWithOverflow", "AddUnchecked", "SubUnchecked"):
+                va = self.deconst(self.operand(st, depth, fv, rv[2]))
+                vb = self.deconst(self.operand(st, depth, fv, rv[3]))
+                if vb[0] == "i" and vb[1] == vb[2]:
+                    o = rv[2]
+                elif va[0] == "i" and va[1] == va[2]:
+                    o = rv[3]
+                else:
+                    return None
+            elif rv[0] == "cast" and rv[1] == "IntToInt":
+                o = rv[2]
+            else:
+                return None
+        return None
+
+    def run_partitions(self, fv, st, depth, cur, si, part, stop, loopctx, L):
+        """returns (ret value, block to continue at or None); st updated to the join over all partitions"""
+        src, chain = part
+        inner = [h for h, body in L.items() if cur in body]
+        H = min(inner, key=lambda h: len(L[h])) if inner else None
+        target = H if H is not None else stop
+        v = self.read_place(st, depth, src)
+        ctx = dict(loopctx)
+        ctx["partitioned"] = set(loopctx.get("partitioned", ())) | {(cur, si)}
+        outs = []
+        ret = None
+        base = st
+        for val in range(v[1], v[2] + 1):
+            s2 = base.copy()
+            self.write_place(s2, depth, src, I(val))
+            fr = s2.frames[depth]
+            for (l, rv, ty, d) in chain:
+                fr[l] = self.rvalue(s2, depth, fv, rv, ty, 0)
+            r = self.run_region(fv, s2, depth, cur, target, ctx, start_idx=si, skip_first_stop=True)
+            if r is not None:
+                ret = join(ret, r) if ret is not None else r
+            if not s2.frames[depth].get("__dead"):
+                outs.append(s2)
+        if not outs:
+            return ret, None
+        js = outs[0]
+        for o in outs[1:]:
+            js = js.join_with(o)
+        st.frames[:] = js.frames
+        return ret, target
+
     def fix_loop(self, fv, st, depth, header, body, stop, restart_state=None, restart_block=None):
         """Fixpoint iteration of a loop whose exit decision is indeterminate.  Returns (ret value, block to continue at or None);
         st is updated to the joined exit state."""
@@ -989,6 +1237,8 @@ class Interp:
             rounds += 1
             if rounds > 60:
                 raise Budget("loop did not stabilise")
+            if rounds > 12 and __import__("os").environ.get("ABSINT_DEBUG"):
+                pass
             s = inv.copy()
             nxt = run_body(s, header) if rounds > 1 or restart_block is not None else run_body(s, header)
             if nxt is None:
@@ -996,8 +1246,17 @@ class Interp:
             new = inv.join_with(nxt)
             if new.same(inv):
                 break
+            if rounds > 12 and __import__("os").environ.get("ABSINT_DEBUG"):
+                for di, (fa, fb) in enumerate(zip(inv.frames, new.frames)):
+                    for kk in fa.keys() | fb.keys():
+                        if fa.get(kk) != fb.get(kk):
+                            print("  round", rounds, "frame", di, "local", kk, show_val(fa.get(kk), 3)[:150], "->", show_val(fb.get(kk), 3)[:150])
             inv = inv.widen_with(new) if rounds >= 3 else new
         # continue after the loop
+        if __import__("os").environ.get("ABSINT_DEBUG"):
+            print("  fix_loop", fv.f["path"][-40:], "header", header, "rounds", rounds, "exits", [k for k in exits], "restart", restart_block)
+        exits = {k: v for k, v in exits.items() if not isinstance(k, tuple)
+                 and fv.blocks[k].get("t", {}).get("k") not in ("unreachable", "resume", "terminate")}
         if not exits:
             return rets[0], None
         if len(exits) == 1:
@@ -1020,6 +1279,13 @@ class Interp:
             if all(x in ch for ch in chains[1:]):
                 common = x
                 break
+        if common is None:
+            # no common continuation: run every exit to the end of the function
+            for tgt, s in exits.items():
+                r = self.run_region(fv, s, depth, tgt, stop, {})
+                if r is not None:
+                    rets[0] = join(rets[0], r) if rets[0] is not None else r
+            return rets[0], None
         outs = []
         for tgt, s in exits.items():
             if common is not None and tgt != common:
@@ -1063,6 +1329,7 @@ class Interp:
                     dst = stmt[1]
                     dty = fv.locals[dst[0]]["ty"] if not dst[1] else self.place_ty(fv, dst)
                     v = self.rvalue(s, depth, fv, stmt[2], dty, stmt[3])
+                    self.side_facts_on_assign(frame, stmt)
                     if not dst[1]:
                         frame[dst[0]] = v
                     else:
@@ -1188,6 +1455,7 @@ class Interp:
                     dst = stmt[1]
                     dty = fv.locals[dst[0]]["ty"] if not dst[1] else self.place_ty(fv, dst)
                     v = self.rvalue(s, depth, fv, stmt[2], dty, stmt[3])
+                    self.side_facts_on_assign(frame, stmt)
                     if not dst[1]:
                         frame[dst[0]] = v
                     else:
@@ -1287,6 +1555,45 @@ class Interp:
         b = self.deconst(self.operand(st, depth, fv, ob))
         if a[0] != "i" or b[0] != "i":
             return
+        # parity test: (y & 1) ==/!= const  ->  tighten y's bounds to the matching parity
+        if op in ("Eq", "Ne") and b[1] == b[2] and b[1] in (0, 1) and oa[0] in ("c", "m") and not oa[1][1]:
+            ds = fv.defs.get(oa[1][0], [])
+            if len(ds) == 1 and ds[0].kind == "assign" and ds[0].rv[0] == "bin" and ds[0].rv[1] == "BitAnd":
+                y_o, m_o = ds[0].rv[2], ds[0].rv[3]
+                m = self.deconst(self.operand(st, depth, fv, m_o))
+                if m[0] == "i" and m[1] == m[2] == 1 and y_o[0] in ("c", "m") and not y_o[1][1]:
+                    want = b[1] if op == "Eq" else 1 - b[1]
+                    yl = y_o[1][0]
+                    # follow one copy back to the user variable
+                    targets = [yl]
+                    yd = fv.defs.get(yl, [])
+                    if len(yd) == 1 and yd[0].kind == "assign" and yd[0].rv[0] == "use" and yd[0].rv[1][0] in ("c", "m") and not yd[0].rv[1][1][1]:
+                        targets.append(yd[0].rv[1][1][0])
+                    for tl in targets:
+                        cur = st.frames[depth].get(tl)
+                        if cur is not None and cur[0] == "i":
+                            lo, hi = cur[1], cur[2]
+                            if lo % 2 != want:
+                                lo += 1
+                            if hi % 2 != want:
+                                hi -= 1
+                            if lo <= hi:
+                                st.frames[depth][tl] = ("i", lo, hi)
+                                if want == 1:
+                                    st.frames[depth]["__odd"] = frozenset(st.frames[depth].get("__odd", frozenset())) | {tl}
+
+        def odd_tighten(l):
+            odd = st.frames[depth].get("__odd")
+            if odd and l in odd:
+                cur = st.frames[depth].get(l)
+                if cur is not None and cur[0] == "i":
+                    lo, hi = cur[1], cur[2]
+                    if lo % 2 == 0:
+                        lo += 1
+                    if hi % 2 == 0:
+                        hi -= 1
+                    if lo <= hi:
+                        st.frames[depth][l] = ("i", lo, hi)
 
         def setv(o, lo, hi):
             if o[0] in ("c", "m") and not o[1][1] and lo <= hi:
@@ -1298,6 +1605,8 @@ class Interp:
                     cur = st.frames[depth].get(src)
                     if cur is not None and cur[0] == "i":
                         st.frames[depth][src] = ("i", max(cur[1], lo), min(cur[2], hi))
+                        odd_tighten(src)
+                odd_tighten(o[1][0])
         if op == "Lt":
             setv(oa, a[1], min(a[2], b[2] - 1)); setv(ob, max(b[1], a[1] + 1), b[2])
         elif op == "Le":
@@ -1352,6 +1661,8 @@ class Interp:
             if len(ds) == 1 and ds[0].kind == "assign" and ds[0].rv[0] == "disc":
                 pl = ds[0].rv[1]
                 ev = self.read_place(st, depth, pl)
+                if ev[0] == "ord" and not pl[1] and value != "otherwise":
+                    self.refine_ord(st, depth, fv, pl[0], {255: -1, 0: 0, 1: 1}.get(value))
                 if ev[0] == "en":
                     if value != "otherwise":
                         keep = tuple((var, fs) for var, fs in ev[1] if var == value)
@@ -1360,6 +1671,46 @@ class Interp:
                         keep = tuple((var, fs) for var, fs in ev[1] if var not in listed)
                     if keep:
                         self.write_place(st, depth, pl, ("en", keep))
+
+    def refine_ord(self, st, depth, fv, ord_local, outcome):
+        """the Ordering in ord_local came from Ord::cmp(&x, &y); narrow x when y is a constant"""
+        if outcome is None:
+            return
+        ds = fv.defs.get(ord_local, [])
+        if len(ds) != 1 or ds[0].kind != "call" or not re.search(r"core::cmp::Ord.*::cmp$", cname(ds[0].term)):
+            return
+        t = ds[0].term
+        y = self.deref_val(st, self.operand(st, depth, fv, t["args"][1]))
+        y = self.deconst(y)
+        if y[0] != "i" or y[1] != y[2]:
+            return
+        # x: a reference `&arr[idx]` or `&local`
+        xo = t["args"][0]
+        if xo[0] not in ("c", "m") or xo[1][1]:
+            return
+        rds = fv.defs.get(xo[1][0], [])
+        if len(rds) != 1 or rds[0].kind != "assign" or rds[0].rv[0] != "ref":
+            return
+        pl = rds[0].rv[2]
+        cur = self.read_place(st, depth, pl)
+        if cur[0] != "i":
+            return
+        c = y[1]
+        if outcome < 0:
+            new = ("i", cur[1], min(cur[2], c - 1))
+        elif outcome > 0:
+            new = ("i", max(cur[1], c + 1), cur[2])
+        else:
+            new = ("i", c, c)
+        if new[1] > new[2]:
+            return
+        if not pl[1]:
+            st.frames[depth][pl[0]] = new
+        elif len(pl[1]) == 1 and isinstance(pl[1][0], list) and pl[1][0][0] == "i":
+            foc = dict(st.frames[depth].get("__focus", ()))
+            foc[(pl[0], self.copy_source(fv, pl[1][0][1]))] = new
+            st.frames[depth]["__focus"] = tuple(sorted(foc.items()))
+            st.frames[depth]["__fv"] = fv
 
     def refine_assert(self, st, depth, fv, t):
         o = t["cond"]
@@ -1424,6 +1775,7 @@ class Interp:
             else:
                 args.append(v)
         self.call_depth = 0
+        self.current_root = f["path"].replace("curve25519_dalek::", "")[-60:]
         ret = self.call_fn(f, args, st, 0)
         return ret, st.frames[0]
 
@@ -1445,13 +1797,35 @@ class Interp:
         res = None
         diverges = t.get("target") is None
         handled = False
+        env = dict(st.frames[depth].get("__ty", ()))
+        gargs = [subst_ty(x, env) if isinstance(x, str) else x for x in (t.get("gargs") or [])]
+        rgargs = None
+        if t.get("resolved") and t["resolved"].get("gargs") is not None:
+            rgargs = [subst_ty(x, env) if isinstance(x, str) else x for x in t["resolved"]["gargs"]]
+        callee_env = None
+        if g is None and t.get("resolved") is None and t.get("callee_trait") and gargs and isinstance(gargs[0], str) and env:
+            # trait method on a type parameter: resolve through the caller's type environment
+            g = self.find_impl(t["callee_trait"], (t.get("callee") or "").split("::")[-1], gargs[0])
+            if g is not None:
+                n = g["path"]
+        if g is not None and g.get("generics"):
+            gnames = g["generics"]
+            if t.get("resolved") is not None or True:
+                # align: trait-method calls carry Self first; inherent/generic fns carry their own params
+                vals = rgargs if rgargs is not None else gargs
+                if len(vals) == len(gnames):
+                    callee_env = {a: b for a, b in zip(gnames, vals) if isinstance(b, str)}
+                elif len(vals) > len(gnames):
+                    callee_env = {a: b for a, b in zip(gnames, vals[-len(gnames):]) if isinstance(b, str)}
+            if callee_env is None and env:
+                callee_env = {k: v for k, v in env.items() if k in gnames}
         if self.models is not None:
             r = self.models.call(self, fv, st, depth, t, n, args, dty)
             if r is not NotImplemented:
                 res = r
                 handled = True
         if not handled and g is not None and "mir" in g:
-            res = self.call_local(g, args, st, depth)
+            res = self.call_local(g, args, st, depth, callee_env)
             handled = True
         if not handled:
             # closure call through Fn traits
@@ -1493,8 +1867,26 @@ class Interp:
             return v[1]
         return v
 
-    def call_local(self, g, args, st, depth):
+    def find_impl(self, trait_path, name, self_ty):
+        key = (trait_path, name, self_ty)
+        c = self.__dict__.setdefault("_impl_cache", {})
+        if key not in c:
+            last = trait_path.split("::")[-1]
+            want = norm_ty(self_ty)
+            hit = None
+            for g in self.F.fns.values():
+                if "mir" in g and g.get("name") == name and g.get("trait") and re.sub(r"<.*", "", g["trait"]).split("::")[-1] == last \
+                        and norm_ty(g.get("self_ty") or "") == want:
+                    hit = g
+                    break
+            c[key] = hit
+        return c[key]
+
+    def call_local(self, g, args, st, depth, tyenv=None):
         """execute a local callee; memoised on the abstract arguments (with pointee values for references)"""
+        tr = __import__("os").environ.get("ABSINT_TRACE")
+        if tr and re.search(tr, g["path"]):
+            print("TRACE call", g["path"][-60:], "tyenv", tyenv, "args", [show_val(self.deref_val(st, a), 3)[:120] for a in args])
         key_args = []
         refs = []
         for a in args:
@@ -1509,7 +1901,7 @@ class Interp:
             else:
                 key_args.append(a)
         pure = not any(self.contains_ref(x) for x in key_args if x and x[0] not in ("R", "S"))
-        key = (g["key"], tuple(key_args))
+        key = (g["key"], tuple(key_args), tuple(sorted(tyenv.items())) if tyenv else None)
         if pure:
             try:
                 hit = self.memo.get(key)
@@ -1524,7 +1916,13 @@ class Interp:
                         st.frames[r[1]][r[2]] = self.write_path(cur, r[3], newv)
                 return ret
         before = [self.read_path(st.frames[r[1]].get(r[2], TOP), r[3]) for r in refs]
-        ret = self.call_fn(g, args, st, depth)
+        ret = self.call_fn(g, args, st, depth, tyenv)
+        if tr and re.search(tr, g["path"]):
+            print("TRACE ret ", g["path"][-60:], show_val(ret, 3)[:200] if ret is not None else None, "| args after:", [show_val(self.deref_val(st, a), 3)[:200] for a in args])
+        for rx, bound, name in getattr(self, "assumed_post", ()):
+            if rx.search(g["path"]) and ret is not None:
+                ret = meet(ret, bound)
+                self.used_assumptions = getattr(self, "used_assumptions", set()) | {name}
         if pure:
             after = [self.read_path(st.frames[r[1]].get(r[2], TOP), r[3]) for r in refs]
             writes = [a if a != b else None for a, b in zip(after, before)]
@@ -1550,6 +1948,17 @@ class Interp:
         if v[0] == "vec":
             return self.contains_ref(v[1])
         return False
+
+
+def norm_ty(t):
+    t = re.sub(r"^&('\w+ )?(mut )?", "", t.strip())
+    return re.sub(r"'\w+ ", "", t)
+
+
+def subst_ty(t, env):
+    if not env or not isinstance(t, str):
+        return t
+    return re.sub(r"\b(%s)\b" % "|".join(re.escape(k) for k in env), lambda m: env[m.group(1)], t)
 
 
 def generalise(v):
